@@ -104,7 +104,8 @@ fn span_json(tcx: TyCtxt<'_>, span: Span) -> J {
         .set("file", J::s(file))
         .set("line", J::Int(lo.line as i128))
         .set("col", J::Int(lo.col.0 as i128))
-        .set("eline", J::Int(hi.line as i128));
+        .set("eline", J::Int(hi.line as i128))
+        .set("ecol", J::Int(hi.col.0 as i128));
     if from_exp {
         j.put("macros", J::Arr(macros));
     }
